@@ -1,11 +1,11 @@
 // Kani harnesses compiled as `crate::solve::data::verif_kani` (child of src/solve/data.rs).
 #![allow(dead_code, unused_imports, clippy::all)]
 
-#[path = "/verif/kani/data/models.rs"]
-pub(crate) mod models;
-#[path = "/verif/kani/data/kernels.rs"]
-mod kernels;
-#[path = "/verif/kani/data/rmatch.rs"]
-mod rmatch;
 #[path = "/verif/kani/data/draws.rs"]
 pub(crate) mod draws;
+#[path = "/verif/kani/data/kernels.rs"]
+mod kernels;
+#[path = "/verif/kani/data/models.rs"]
+pub(crate) mod models;
+#[path = "/verif/kani/data/rmatch.rs"]
+mod rmatch;
